@@ -25,12 +25,21 @@ func init() {
 	})
 }
 
+func c15StateWriters(c *Ctx) {
+	r := c.R.Rule("R6", "K2 (part of C02.R6) an update never rewrites the position: connector.Instance.State has a closed writer set (Source.Ack, SetState, the store decoders) — a config or plugin update through the import leaves it alone", 5)
+	stateF := c.Field(r, pConn, "Instance", "State")
+	c.WhoMayWrite(r, "connector.Instance.State", stateF, []string{
+		pConn + ".(*Source).Ack", pConn + ".(*Service).SetState", pConn + ".(*Store).decode", pConn + ".(*Store).migratePre041", pConn + ".(*Store).PrepareSet",
+	}, nil)
+}
+
 func runC15(c *Ctx) {
 	c15R1(c)
 	c15R2(c)
 	c15R3(c)
 	c15R4(c)
 	c15R5(c)
+	c15StateWriters(c)
 }
 
 // selectorsOn returns the field names selected, inside fd, on expressions of struct type T.
